@@ -644,7 +644,7 @@ class BinaryOp(Expr):
         if ltype == rtype == Type.STRING and self.op != Operator.ADD:
             return Type.UNKNOWN
 
-        if self.op == Operator.MOD:
+        if self.op in (Operator.MOD, Operator.INTDIV):
             if not ltype.is_numeric or not rtype.is_numeric:
                 return Type.UNKNOWN
 
